@@ -43,4 +43,4 @@ class Cast(series.Expression):
     kind: kindmod.Any = property(operator.itemgetter(1))
 
     def __new__(cls, value: 'dsl.Operable', kind: 'dsl.Any'):
-        return super().__new__(cls, value, kind)
+        return super().__new__(cls, series.Operable.ensure_is(value), kind)
